@@ -64,6 +64,12 @@ def gen_cases(rng, tier):
         ents = m.get(key) or []
         if len(ents) >= 2:
           ents[0][-1], ents[1][-1] = n1, n2
+    if i % 3 == 2:
+      # nested modifiers whose ranges share a start at two levels, with the same or the other marker
+      for key in ("pair", "density", "embed"):
+        ents = m.get(key) or []
+        if ents:
+          ents[-1][-1] = spec.gen_nested_same_start(rng)[0]
     cases.append({"model": m, "styles": [rng.randrange(1 << 30) for _ in range(3)], "rseed": rng.randrange(1 << 30)})
   return cases
 
@@ -162,6 +168,14 @@ def run_case(case, ctx):
     o = oracle.ValueOracle(M, ref_node)
     top = crho if is_rho else cutoff
     pts = [0.0, round(rng.uniform(0.05, top), 3), round(rng.uniform(0.05, top), 2), round(rng.uniform(0.05, top), 5), top, round(top * 1.7, 3), -0.5]
+    # exactly ON every breakpoint of the definition (range starts at any nesting level, spline detach/attach/r_min,
+    # table ends) and on its floating-point neighbours: where '>' and '>=' differ.  r is passed to the callable as
+    # the very double the reference uses, so no rounding is involved.
+    import math
+    exact = set(M.exact_breakpoints(ref_node))
+    bps = sorted(set(b for b in exact if -1.0 <= b <= 2 * top))
+    for b in (bps if len(bps) <= 8 else rng.sample(bps, 8)):
+      pts += [b, math.nextafter(b, math.inf), math.nextafter(b, -math.inf)]
     apif = None
     if api_composable(node):
       try:
@@ -176,8 +190,8 @@ def run_case(case, ctx):
           continue
       except (R.RefDomainError, ZeroDivisionError, ValueError, OverflowError):
         continue
-      if oracle.on_break(rr, o.breaks) and r != 0:
-        continue
+      if oracle.on_break(rr, o.breaks) and r != 0 and not any(abs(r - b) <= 4e-16 * max(1.0, abs(b)) for b in exact):
+        continue   # a breakpoint reached through trans() (r+X is rounded) or inside a formula (exprtk's own literals)
       try:
         vals = [f[tag](r) for f in fns]
       except OverflowError:
